@@ -66,7 +66,32 @@ def monitor(tier, seed, progress):
                     cuts = {rng.randrange(n // 2, n - 1), rng.randrange(n // 4, n - 1), n - 2}
                     for pv in ind.period_values(sig, params):                       # prefixes that end right where a warm-up ends
                         cuts.update(c_ for c_ in (pv - 1, pv, pv + 1, 2 * pv) if 2 <= c_ < n)
+                    gaps = [i_ for i_ in range(n // 4, n - 1) if cs[i_][1] != cs[i_ - 1][2]]
+                    cuts.update(gaps[:2] + gaps[-1:])                               # prefixes that end right before a discontinuity (open != previous close)
                     cuts = sorted(cuts)
+                    # the property itself: replacing the candles from index k0 on by other candles leaves entries 0..k0-1 unchanged
+                    k0 = rng.randrange(n // 2, n - 1)
+                    arr2 = arr.copy()
+                    arr2[k0:, 1:5] = arr[k0:, 1:5] * 1.5 + 3.0
+                    arr2[k0:, 5] = arr[k0:, 5] * 2.0 + 1.0
+                    progress({'indicator': name, 'params': params, 'series': style, 'length': n, 'tail_replaced_from': k0, 'candles': cs})
+                    try:
+                        other = ind.fields(ind.call(f, sig, arr2, True, params))
+                    except Exception:
+                        other = None
+                    if other is not None:
+                        trail = int(params.get(EXEMPT_TRAILING[name], sig.parameters[EXEMPT_TRAILING[name]].default)) if name in EXEMPT_TRAILING else 0
+                        scale = float(np.nanmax(np.abs(arr[:, 1:5])))
+                        for fld, v in full.items():
+                            a, b = ind.numeric_array(v), ind.numeric_array(other.get(fld))
+                            if a is None or b is None or len(b) != n or len(a) != n:
+                                continue
+                            n_checks += 1
+                            for i in range(k0 - trail):
+                                if not ind.same(a[i], b[i], scale):
+                                    viol.setdefault(name, {'indicator': name, 'field': fld, 'params': params, 'series': style, 'length': n, 'tail_replaced_from': k0, 'index': i,
+                                                           'value_with_other_tail': float(b[i]), 'value_on_full_input': float(a[i]), 'candles': cs})
+                                    break
                     for k in cuts:
                         progress({'indicator': name, 'params': params, 'series': style, 'length': n, 'prefix_length': k, 'candles': cs})
                         try:
